@@ -180,6 +180,8 @@ def map_type(q):
         it = map_type(a[0])
         nm = 'result_%s_t' % _san(it.c.replace('struct ', ''))
         return CType(nm, 'result', '', ref, 0, it)
+    if re.match(r'^std::ranges::(in_in_result|mismatch_result)<.*>$', base):
+        return CType('mismatch_result_t', 'mm', '', ref)
     m = re.match(r'^std::initializer_list<(.*)>$', base)
     if m:
         raise Unsupported('initializer_list ' + q)
